@@ -696,3 +696,55 @@ def thread_desugared_jumps(body):
     nb = dict(body)
     nb["mir"] = mir
     return nb
+
+
+CHECKED_ARITH = {"core::num::<impl usize>::checked_div": "Div", "core::num::<impl usize>::checked_rem": "Rem", "core::num::<impl usize>::checked_sub": "Sub"}
+
+
+def desugar_checked_arith(db, body):
+    """`a.checked_div(b)` / `a.checked_rem(b)` on usize rewritten as `if b == 0 { None } else { Some(a / b) }` (resp. `%`), and
+    `a.checked_sub(b)` as `if a < b { None } else { Some(a - b) }`: what std's bodies do for unsigned integers."""
+    mir = None
+    for bi, blk0 in enumerate(body["mir"]["blocks"]):
+        t0 = blk0["term"]
+        if not (t0["k"] == "call" and t0["f"].get("k") == "fn" and t0["f"]["def"] in CHECKED_ARITH and not blk0["cleanup"] and t0.get("target") is not None and len(t0["args"]) == 2):
+            continue
+        if mir is None:
+            mir = copy.deepcopy(body["mir"])
+        blocks, locs = mir["blocks"], mir["locals"]
+        blk = blocks[bi]
+        t = blk["term"]
+        op = CHECKED_ARITH[t["f"]["def"]]
+        at = t.get("at")
+        us = {"k": "prim", "n": "usize"}
+        boolty = {"k": "prim", "n": "bool"}
+        ox = {"def": "core::option::Option", "args": [us], "active": None}
+        a_, b_ = t["args"]
+
+        def cp(o):
+            o = copy.deepcopy(o)
+            if o.get("k") == "move":
+                o["k"] = "copy"
+            return o
+        locs.append({"ty": boolty, "s": "bool"})
+        lc = len(locs) - 1
+        locs.append({"ty": us, "s": "usize"})
+        lv = len(locs) - 1
+        blocks.append({"cleanup": False, "stmts": [{"k": "assign", "lhs": copy.deepcopy(t["dest"]), "at": at, "rv": {"k": "agg", "ak": "Adt", "x": dict(ox, variant=0), "ops": []}}],
+                       "term": {"k": "goto", "target": t["target"], "at": at, "exp": t.get("exp")}, "inl": "desugar"})
+        none_i = len(blocks) - 1
+        blocks.append({"cleanup": False, "stmts": [{"k": "assign", "lhs": {"l": lv, "p": []}, "at": at, "rv": {"k": "bin", "op": op, "a": cp(a_), "b": cp(b_)}},
+                                                    {"k": "assign", "lhs": copy.deepcopy(t["dest"]), "at": at, "rv": {"k": "agg", "ak": "Adt", "x": dict(ox, variant=1), "ops": [{"k": "move", "p": {"l": lv, "p": []}}]}}],
+                       "term": {"k": "goto", "target": t["target"], "at": at, "exp": t.get("exp")}, "inl": "desugar"})
+        some_i = len(blocks) - 1
+        if op == "Sub":
+            test = {"k": "bin", "op": "Lt", "a": cp(a_), "b": cp(b_)}
+        else:
+            test = {"k": "bin", "op": "Eq", "a": cp(b_), "b": {"k": "const", "ty": us, "c": {"k": "int", "v": 0, "size": 8}, "s": "0_usize"}}
+        blk["stmts"].append({"k": "assign", "lhs": {"l": lc, "p": []}, "rv": test, "at": at})
+        blk["term"] = {"k": "switch", "discr": {"k": "move", "p": {"l": lc, "p": []}}, "targets": [[0, some_i]], "otherwise": none_i, "at": at, "exp": t.get("exp")}
+    if mir is None:
+        return body
+    nb = dict(body)
+    nb["mir"] = mir
+    return nb
